@@ -360,7 +360,7 @@ func (p *Prog) dominatedByTailSurvived(b *ssa.BasicBlock, rs ssa.Value) bool {
 // ---------------------------------------------------------------------------
 // R13b: Find adopts every file that carries the log suffix.
 func (p *Prog) findAdoptsAll() Ob {
-	ob := Ob{Rule: "R13", Inst: "find-adopts-every-log", Props: []string{"C02", "C01", "C20", "C05"}, Pos: "-", Func: "segment.Find", Nontrivial: true}
+	ob := Ob{Rule: "R13", Inst: "find-adopts-every-log", Props: []string{"C02", "C01", "C20", "C05", "C06"}, Pos: "-", Func: "segment.Find", Nontrivial: true}
 	fn := p.pkgFunc(pkgSegment, "Find")
 	if fn == nil {
 		ob.Status, ob.Msg = Undecided, "segment.Find not found"
